@@ -486,7 +486,11 @@ func (tx *OngoingTx) GetWithFilters(ctx context.Context, key []byte, filters ...
 	}
 
 	valRef, err := snap.GetWithFilters(ctx, key, filters...)
-	if !tx.IsReadOnly() && errors.Is(err, ErrKeyNotFound) {
+
+	// a key written by this transaction (and filtered out, e.g. deleted by it) needs no validation
+	_, ownWrite := tx.entriesByKey[sha256.Sum256(key)]
+
+	if !tx.IsReadOnly() && errors.Is(err, ErrKeyNotFound) && !ownWrite {
 		expectedGet := expectedGet{
 			key:     cp(key),
 			filters: filters,
